@@ -4,11 +4,14 @@ from __future__ import annotations
 from collections.abc import Mapping, Sequence
 from typing import Any, Dict, List, Optional, Union
 
+import io
+import json
+
 import jsonpath
 from jsonpath import JSONPathEnvironment
 
 from vlib import spines
-from vlib.hs import Leaf, P, alist, drive, kf, ok, small, why
+from vlib.hs import Leaf, P, alist, drive, kf, ok, pick, small, why
 
 ENV = JSONPathEnvironment()
 QTEXT = P.get("qtext", "$.*")
@@ -187,3 +190,42 @@ def schedule(l0: LT, l1: LT, m0: LT, m1: LT, n: int, s0: bool, s1: bool, s2: boo
         else:
             got2.append(m)
     return ok(_same(solo1, got1) and _same(solo2, got2))
+
+
+FPOOL = [None, "a", 1, {"a": 1}, "é", []][: P.get("fpool", 4)]
+
+
+def forms(i0: int, i1: int, n: int, form: int) -> bool:
+    """The document as JSON text / text file / binary file: the four entry points (sync and async) agree with the parsed document.
+
+    pre: 0 <= i0 < len(FPOOL) and 0 <= i1 < len(FPOOL)
+    pre: 0 <= n <= MAXN
+    pre: 0 <= form <= 2
+    post: _
+    """
+    L = [pick(FPOOL, i0), pick(FPOOL, i1), 1, 2]
+    doc = spines.build(SPINE, L + L[:2], n, [True, True, True])
+    text = json.dumps(doc)
+
+    def mk() -> Any:
+        if form == 0:
+            return text
+        if form == 1:
+            return io.StringIO(text)
+        return io.BytesIO(text.encode("utf-8"))
+
+    base = COMPILED.findall(doc, filter_context=CTX)
+    calls = [
+        ("findall", lambda: COMPILED.findall(mk(), filter_context=CTX)),
+        ("finditer", lambda: [m.obj for m in COMPILED.finditer(mk(), filter_context=CTX)]),
+        ("findall_async", lambda: drive(COMPILED.findall_async(mk(), filter_context=CTX))),
+        ("finditer_async", lambda: [m.obj for m in drive(alist(drive(COMPILED.finditer_async(mk(), filter_context=CTX))))]),
+    ]
+    for name, call in calls:
+        try:
+            got = call()
+        except Exception as e:  # noqa: BLE001
+            return ok(why(False, name, "raised on document form", form, type(e).__name__, str(e)))
+        if not why(got == base, name, "differs on document form", form, got, base):
+            return ok(False)
+    return ok(True)
